@@ -175,7 +175,10 @@ Definition sx_deptype (t : deptype) : sx :=
 Definition sx_version (v : version) : sx :=
   SL [sx_vkey (v_key v); sx_attrs [] [(k_tags, v_tags v); (k_derived_from, v_derived v)]].
 
-Definition sx_reqver (r : reqver) : sx := SL [sx_vkey (rv_key r); sx_deptype (rv_type r)].
+(* a requirement: key, attributes, IsRegular, and "indistinguishable from the same type built from
+   the zero value" (always 1 in the model: Properties/C18_deptype.v, C18_dep_type_equal) *)
+Definition sx_reqver (r : reqver) : sx :=
+  SL [sx_vkey (rv_key r); sx_deptype (rv_type r); sx_bool (is_regular (rv_type r)); sx_bool true].
 
 Definition sym_notfound : bytes := [110;111;116;102;111;117;110;100].
 
